@@ -137,7 +137,10 @@ def close_links(schema_js, rows, links):
                 row = {}
                 for n, t in c['attrs']:
                     v = sh.attr(r, n)
-                    row[n] = gen_schema.default_of(t) if v is None else v
+                    v = gen_schema.default_of(t) if v is None else v
+                    if t.upper() == 'REAL':
+                        v = float('%f' % v)      # the format carries six decimals: keys closer than that coincide
+                    row[n] = v
                 out.append(row)
             ser[c['name'].upper()] = out
         want = key_join(sc, ser)
@@ -201,7 +204,6 @@ def nonnull_value(ty, hard=True):
         return gen_schema.ids(nonzero=True)
     if ty == 'STRING':
         return gen_schema.strings(hard).filter(lambda s: s != '')
-    # an unlinked referential attribute is written as the null of its type (0 for INTEGER): an identifying
-    # value equal to that null would make the reloaded row link to it, so such keys are outside the
-    # resolvable domain
-    return gen_schema.value_of(ty, hard).filter(lambda v: v != gen_schema.default_of(ty))
+    # INTEGER, REAL and BOOLEAN have no null: 0 / 0.0 / false are ordinary key values.  An unlinked referential
+    # attribute is written as that value too and then matches such a key - close_links() accounts for it
+    return gen_schema.value_of(ty, hard)
